@@ -364,6 +364,38 @@ def run_state(case, rec):
                     cls = 'private / non-callable view member' if any(name.endswith(x) for x in VIEW_FORBIDDEN) else 'name that was never registered'
                     rec.violation('C15:%s is reachable' % cls, dict(prefix=prefix, history=show(hist), disp=disp, extra=extra, probe=name),
                                   expected=-32601, observed=r)
+            if extra == 'late' or (extra is False and not debug):
+                # (1) what is registered on the registry object AFTER it was attached is not registered on the dispatcher, and what is
+                #     registered on the dispatcher does not show up in the registry (attaching copies the table)
+                reg.add(f3, name='only-on-registry')
+                d.add(f2, name='only-on-dispatcher')
+                m['only-on-dispatcher'] = 'f2'
+                r = probe(d, disp == 'async', join(prefix, 'only-on-registry'))
+                rec.transitions += 1
+                if r.get('error', {}).get('code') != -32601:
+                    rec.violation('C15:a method added to a registry after it was attached is reachable through the dispatcher', dict(prefix=prefix, history=show(hist), disp=disp, extra=extra),
+                                  expected=-32601, observed=r)
+                if 'only-on-dispatcher' in reg:
+                    rec.violation('C15:a method added to the dispatcher shows up in the registry that was attached to it', dict(prefix=prefix, history=show(hist), disp=disp, extra=extra),
+                                  expected='not in the registry', observed=sorted(reg)[:8])
+                d2 = pjrpc.server.AsyncDispatcher() if disp == 'async' else pjrpc.server.Dispatcher()
+                d2.add_methods(reg)
+                r = probe(d2, disp == 'async', 'only-on-dispatcher')
+                if r.get('error', {}).get('code') != -32601:
+                    rec.violation('C15:a method added to one dispatcher is reachable through another dispatcher that shares a registry with it', dict(prefix=prefix, history=show(hist), disp=disp, extra=extra),
+                                  expected=-32601, observed=r)
+                # (2) one add_methods() call with several arguments registers them in argument order (a later one replaces an earlier one)
+                other = MethodRegistry()
+                other.add(f3, name='clash')
+                d.add_methods(Method(f1, name='clash'), other)
+                r1 = probe(d, disp == 'async', 'clash')
+                d.add_methods(other, Method(f1, name='clash'))
+                r2 = probe(d, disp == 'async', 'clash')
+                rec.transitions += 3
+                if (r1.get('result'), r2.get('result')) != ('f3', 'f1'):
+                    rec.violation('C15:add_methods() with several arguments does not register them in argument order', dict(prefix=prefix, history=show(hist), disp=disp, extra=extra),
+                                  expected=('f3', 'f1'), observed=(r1, r2))
+                m['clash'] = 'f1'
             if extra == 'replace-after-call' and m:
                 # every name has been CALLED by now; now existing names are re-registered with other functions through each public
                 # route and a view method is replaced by a function: the later registration must be the one that answers
